@@ -1,10 +1,14 @@
 #!/bin/bash
-# usage: mutcheck.sh <patch.diff> <props> [extra govc args]
-# applies a patch to a scratch copy of /repo (outside /repo and /verif), runs govc on it, removes the copy
+# usage: mutcheck.sh <patch.diff> <prop> [extra govc args]
+# applies a patch to a scratch copy of /repo (outside /repo and /verif), runs the property check on it
+# (lock file and known findings of /verif, no evidence written), removes the copy
 set -u
-patch="$1"; props="$2"; shift 2
+patch="$(realpath "$1")"; prop="$2"; shift 2
 d=$(mktemp -d /var/tmp/mutrepo.XXXXXX)
 trap 'rm -rf "$d"' EXIT
 rsync -a --exclude .git /repo/ "$d/"
 (cd "$d" && patch -p1 -s < "$patch") || { echo "patch failed"; exit 2; }
-/verif/bin/govc check -repo "$d" -prop "$props" -no-evidence -scratch "$d/.scratch" "$@"
+export GOFLAGS=-mod=mod GOPROXY=off GOSUMDB=off GOTOOLCHAIN=local
+(cd "$d" && go build ./... ) || { echo "MUTANT DOES NOT COMPILE"; exit 3; }
+/verif/bin/govc check -repo "$d" -prop "$prop" -verif /verif -no-evidence -scratch "$d/.scratch" "$@" | sed "s#$d#<scratch>#g"
+exit ${PIPESTATUS[0]}
